@@ -32,8 +32,36 @@ def pair_patterns(rng, la, lb):
         out.append((val(canon(x)), val(y[:max(lo, s + 1)])))
     return out
 
-def gen(rng, tier):
+def complement_reqs(rng, tier):
+    """complement pairs x + (B^n − x) (= B^n: equal digit counts, the leading digits sum to MAX and the carry from below
+    decides the length), B^n − x ± 1, and the matching subtractions B^n − x, B^n ± 1 − x, through every add / sub entry
+    point incl. BigInt sign combinations (C01-j1: an exact-size `&a + &b` that decides the result length from the
+    leading digits alone)"""
     reqs = []
+    ops_u = ["u.add", "u.add_assign", "u.checked_add"]
+    ops_i = ["i.add", "i.sub", "i.add_assign", "i.sub_assign", "i.checked_add", "i.checked_sub"]
+    for n in [1, 2, 3, 4, 5, 6, 9, 10, 11, 33] + ([17, 64, 100] if tier == "thorough" else []):
+        for _ in range(3 if tier != "thorough" else 8):
+            x = rng.choice([big(rng, n), val([rng.choice([0, MAX, 1, rng.randrange(B)]) for _ in range(n - 1)] + [rng.randrange(1, B)]), val([MAX] * (n - 1) + [5])])
+            Bn = 1 << (64 * n)
+            if not 0 < x < Bn:
+                continue
+            for y in (Bn - x, Bn - x - 1, Bn - x + 1):
+                if y < 0:
+                    continue
+                for op in ops_u:
+                    a, b = (x, y) if rng.randrange(2) else (y, x)
+                    reqs.append("C01 %s %s %s" % (op, wu(a), wu(b)))
+                for op in ops_i:
+                    sa = rng.choice([1, -1]); sb = sa if op.endswith("add") or "add" in op else -sa
+                    reqs.append("C01 %s %s %s" % (op, wi(sa * x), wi(sb * y)))
+            for t in (Bn, Bn + 1, Bn - 1):
+                if t >= x:
+                    reqs.append("C01 %s %s %s" % (rng.choice(["u.sub", "u.sub_assign", "u.sub_refval", "u.checked_sub"]), wu(t), wu(x)))
+    return reqs
+
+def gen(rng, tier):
+    reqs = complement_reqs(rng, tier)
     n_rounds = 12 if tier == "thorough" else 1
     for _ in range(n_rounds):
         ls = lengths(rng, tier)
